@@ -34,6 +34,17 @@ fn main() {
         std::process::exit(code);
     }
     let tier = args[2].as_str();
+    // a subject that never returns must not hang the check for ever: after the wall cap the run is abandoned
+    // as a machinery failure (exit 2, never a verdict; non-termination as a property is C08's, through children)
+    {
+        let cap: u64 = std::env::var("VERIF_WALL_CAP_S").ok().and_then(|s| s.parse().ok()).unwrap_or(if tier == "thorough" { 4 * 3600 } else { 1500 });
+        let what = format!("{} {}", id, tier);
+        std::thread::spawn(move || {
+            std::thread::sleep(std::time::Duration::from_secs(cap));
+            eprintln!("MACHINERY: wall cap of {} s exceeded by {} (a subject call may not be returning); abandoning the run", cap, what);
+            std::process::exit(2);
+        });
+    }
     if tier != "quick" && tier != "thorough" {
         eprintln!("tier must be quick or thorough");
         std::process::exit(2);
